@@ -7,6 +7,7 @@ import (
 	"math"
 	"net"
 	"net/netip"
+	"net/textproto"
 	"net/url"
 	"reflect"
 	"strings"
@@ -29,6 +30,9 @@ type Builder struct {
 	MaxDepth int
 	UniqueID string // when set, every string leaf embeds it (isolation checks)
 	NonEmpty bool   // core mode: arrays have at least one item (parameters)
+	// PartHeader, when set, is used (the same map, not a copy) as the custom header of every multipart file
+	// built: callers may share one read-only header map between uploads
+	PartHeader textproto.MIMEHeader
 }
 
 var (
@@ -305,7 +309,11 @@ func (b *Builder) Value(t reflect.Type, depth int) reflect.Value {
 		for i := range data {
 			data[i] = byte(r.Intn(256))
 		}
-		return reflect.ValueOf(ht.MultipartFile{Name: "f" + fmt.Sprint(r.Intn(1000)) + ".bin", File: bytes.NewReader(data), Size: int64(len(data))})
+		name := "f" + fmt.Sprint(r.Intn(1000)) + ".bin"
+		if b.UniqueID != "" {
+			name = b.UniqueID + name
+		}
+		return reflect.ValueOf(ht.MultipartFile{Name: name, File: bytes.NewReader(data), Size: int64(len(data)), Header: b.PartHeader})
 	case tBytes:
 		data := make([]byte, r.Intn(40))
 		for i := range data {
